@@ -712,7 +712,49 @@ def check_write_real(case):
     return True, ["write-real", op, "n=%d" % n]
 
 
+def long_life_cases(tier, seed):
+    """one FallbackClient used for thousands of reads: runs of misses everywhere, of primary hits, of fallback hits, mixed"""
+    n = 3000 if tier == "quick" else 30000
+    for ncaches in (1, 2, 3):
+        for pattern in ("all-miss", "primary", "last", "mixed", "miss-then-hit"):
+            yield {"n": n, "caches": ncaches, "pattern": pattern}
+
+
+def check_long_life(case):
+    n, nc, pattern = case["n"], case["caches"], case["pattern"]
+    log = []
+    keys = ["k%d" % i for i in range(7)]
+    present = {"all-miss": [set()] * nc, "primary": [set(keys)] + [set()] * (nc - 1), "last": [set()] * (nc - 1) + [set(keys)],
+               "mixed": [set(keys[i::nc]) for i in range(nc)], "miss-then-hit": [set()] * nc}[pattern]
+    caches = [Scripted(i, set(present[i]), log) for i in range(nc)]
+    fc = FallbackClient(caches)
+    x = (n * 31 + nc * 7 + len(pattern)) & 0x7FFFFFFF
+    for i in range(n):
+        x = (x * 1103515245 + 12345) & 0x7FFFFFFF
+        op = ("get", "gets", "get_many", "gets_many")[(x >> 16) % 4]
+        k = keys[(x >> 8) % len(keys)]
+        if pattern == "miss-then-hit" and i == n - 50:
+            caches[-1].present = set(keys)
+        held = [i_ for i_, c_ in enumerate(caches) if k in c_.present]
+        del log[:]
+        try:
+            r = getattr(fc, op)(k) if op in ("get", "gets") else getattr(fc, op)([k])
+        except Exception as e:  # noqa: BLE001
+            raise Violation(["long-life", "raises", type(e).__name__], "read number %d (%s(%r)) on one FallbackClient over %d caches (%s) raised %r" % (i + 1, op, k, nc, pattern, e))
+        consulted = [i_ for i_, nm, _b in log]
+        want = list(range(held[0] + 1)) if held else list(range(nc))
+        if consulted != want:
+            raise Violation(["long-life", "consulted"], "read number %d (%s(%r)) consulted caches %r, expected %r (%d caches, %s)" % (i + 1, op, k, consulted, want, nc, pattern))
+        miss = {"get": None, "gets": (None, None), "get_many": {}, "gets_many": {}}[op]
+        if (not held) and r != miss and r != [] :
+            raise Violation(["long-life", "miss-shape"], "read number %d (%s(%r)) returned %r for a miss everywhere" % (i + 1, op, k, r))
+        if held and (r == miss or r == []):
+            raise Violation(["long-life", "hit-lost"], "read number %d (%s(%r)) returned %r although cache %d holds the key" % (i + 1, op, k, r, held[0]))
+    return True, ["long-life", pattern, "caches=%d" % nc]
+
+
 PARTS = [
+    Part("long-lives", "enum", check_long_life, cases=long_life_cases, shards={"quick": 5, "thorough": 15}),
     Part("reads-scripted", "enum", check_read, cases=read_cases, shards={"quick": 2, "thorough": 2}, exhaustive=True),
     Part("writes-scripted", "enum", check_write, cases=write_cases, shards={"quick": 2, "thorough": 2}, exhaustive=True),
     Part("reads-key-kinds-and-shapes", "enum", check_key_shapes, cases=key_shape_cases, shards={"quick": 2, "thorough": 2}, exhaustive=True),
